@@ -47,7 +47,7 @@ pub fn check(h: &History, obs: &mut Obs) -> CheckResult {
 
 fn run(ctx: &Ctx) {
     // Small buffers with many operations: realigns are frequent because chunk sizes are small.
-    let n = ctx.share(ctx.tier.pick(200_000, 5_000_000));
+    let n = ctx.share(ctx.tier.pick(400_000, 6_000_000));
     ctx.run_cases("history", n, history_strategy(600, 60, false), check);
     // Long inputs with the default/4096 chunk: realign needs > 2 chunks advanced.
     let big = (
@@ -65,7 +65,7 @@ fn run(ctx: &Ctx) {
             }
             h
         });
-    let n = ctx.share(ctx.tier.pick(3_000, 60_000));
+    let n = ctx.share(ctx.tier.pick(6_000, 90_000));
     ctx.run_cases("history-large", n, big, check);
 }
 
